@@ -5,6 +5,7 @@ package main
 // completeness and result-type agreement.
 
 import (
+	"go/token"
 	"fmt"
 	"go/types"
 	"sort"
@@ -124,6 +125,10 @@ func rulePAN6(p *Program) *RuleResult {
 	if err != nil {
 		return r.anchorFail(err)
 	}
+	env, err := newVisitorEnv(p)
+	if err != nil {
+		return r.anchorFail(err)
+	}
 	var names []string
 	for n := range vm {
 		names = append(names, n)
@@ -134,26 +139,15 @@ func rulePAN6(p *Program) *RuleResult {
 		if !strings.HasSuffix(fnPkgPath(fn), "/fhirpath/internal/parser") || len(fn.Blocks) == 0 {
 			continue // promoted from the generated base visitor: PAN7
 		}
-		// the calls that hand a node to the tree
-		var tvr []*ssa.Call
-		var getText []*ssa.Call
-		for _, b := range fn.Blocks {
-			for _, ins := range b.Instrs {
-				c, ok := ins.(*ssa.Call)
-				if !ok {
-					continue
-				}
-				if sc := c.Common().StaticCallee(); sc != nil && sc.Name() == "transformedVisitResult" {
-					tvr = append(tvr, c)
-				}
-				if c.Common().IsInvoke() && c.Common().Method.Name() == "GetText" {
-					if _, isTA := c.Common().Value.(*ssa.TypeAssert); isTA {
-						getText = append(getText, c)
-					}
-				}
+		// does the method hand a node back at all, and does it read an operator token?
+		probe := env.run(fn, "", false)
+		handsNode := false
+		for _, ret := range probe.rets {
+			if ret.isVR {
+				handsNode = true
 			}
 		}
-		if len(tvr) == 0 {
+		if !handsNode {
 			continue
 		}
 		label := strings.TrimPrefix(name, "Visit")
@@ -163,88 +157,174 @@ func rulePAN6(p *Program) *RuleResult {
 			tokens = alt.OpTokens
 		}
 		hyps := []string{""}
-		if len(getText) > 0 && len(tokens) > 0 {
+		if probe.tokReads > 0 && len(tokens) > 0 {
 			hyps = tokens
-		} else if len(getText) > 0 {
+		} else if probe.tokReads > 0 {
 			r.undecided(name+"|tokens", name+" reads an operator token but the grammar alternative has none", p.pos(fn.Pos()), "grammar/visitor mismatch")
 			continue
 		}
+		// stores of possibly-nil values into node fields, in the method and the package functions it calls
+		nilStores := mayNilNodeStores(p, fn)
 		for _, tok := range hyps {
 			r.count("hypotheses", 1)
-			an := newAnalyzer()
-			an.maxBlocks = 200
+			vr := probe
 			if tok != "" {
-				for _, gt := range getText {
-					an.pin[gt] = cStr(tok)
-				}
+				vr = env.run(fn, tok, true)
 			}
-			res := an.analyze(fn, []aval{nonnil("v"), nonnil("ctx")})
 			key := name + "|op=" + tok
 			desc := name
 			if tok != "" {
 				desc += fmt.Sprintf(" with operator %q", tok)
 			}
 			var problems []string
-			nodeSeen := false
-			for _, c := range tvr {
-				if !res.executable(c) {
-					continue
+			var checkNode func(node aval, where string, depth int)
+			checkNode = func(node aval, where string, depth int) {
+				if depth > 3 {
+					return
 				}
-				nodeSeen = true
-				arg := res.val(c.Common().Args[1])
-				if arg.k == kNonNil {
-					continue
+				if child, _ := visitedTag(node); child != "" {
+					return // the Result of a sub-visit whose Error was tested: non-nil by induction over this rule
 				}
-				// the Result of a sub-visit whose Error was tested: non-nil by induction over this rule
-				if arg.k == kTop && isVisitResultField(c.Common().Args[1]) && !mayBeNilConst(c.Common().Args[1], 0) {
-					continue
+				if node.k != kNonNil {
+					problems = append(problems, fmt.Sprintf("the node handed to the tree may be nil (%s) at %s", node, where))
+					return
 				}
-				problems = append(problems, fmt.Sprintf("the node handed to the tree may be nil (%s) at %s", arg, p.instrPos(c)))
-			}
-			// interface / func typed fields of freshly built nodes must be non-nil
-			for _, b := range fn.Blocks {
-				if !res.execBlock[b.Index] {
-					continue
+				if node.ptrOf == nil || node.ptrOf.k != kStruct || node.dyn == nil {
+					return
 				}
-				for _, ins := range b.Instrs {
-					st, ok := ins.(*ssa.Store)
-					if !ok {
-						continue
-					}
-					fa, ok := st.Addr.(*ssa.FieldAddr)
-					if !ok {
-						continue
-					}
-					al, ok := fa.X.(*ssa.Alloc)
-					if !ok || !strings.Contains(typeShort(al.Type()), "expr.") {
-						continue
-					}
-					switch st.Val.Type().Underlying().(type) {
+				pt, ok := node.dyn.(*types.Pointer)
+				if !ok {
+					return
+				}
+				st, ok := pt.Elem().Underlying().(*types.Struct)
+				if !ok {
+					return
+				}
+				for i := 0; i < st.NumFields() && i < len(node.ptrOf.elems); i++ {
+					f := st.Field(i)
+					v := node.ptrOf.elems[i]
+					switch f.Type().Underlying().(type) {
 					case *types.Interface, *types.Signature:
-						v := res.val(st.Val)
-						if v.k == kNil {
-							problems = append(problems, fmt.Sprintf("field %s of %s is nil at %s", fieldName(fa), typeShort(al.Type()), p.instrPos(st)))
-						} else if v.k != kNonNil && v.k != kTop {
-							problems = append(problems, fmt.Sprintf("field %s of %s is %s", fieldName(fa), typeShort(al.Type()), v))
-						} else if v.k == kTop && mayBeNilConst(st.Val, 0) {
-							problems = append(problems, fmt.Sprintf("field %s of %s may be the nil zero value at %s", fieldName(fa), typeShort(al.Type()), p.instrPos(st)))
+						switch {
+						case v.k == kNil && fieldNilTested(p, pt, f.Name()):
+							// the node's own Evaluate tests the field before using it: nil is a legal state
+						case v.k == kNil:
+							problems = append(problems, fmt.Sprintf("field %s of %s is nil at %s", f.Name(), typeShort(node.dyn), where))
+						case v.k == kTop && nilStores[typeShort(node.dyn)+"."+f.Name()] != "":
+							problems = append(problems, fmt.Sprintf("field %s of %s may be the nil zero value at %s", f.Name(), typeShort(node.dyn), nilStores[typeShort(node.dyn)+"."+f.Name()]))
+						case v.k != kNonNil && v.k != kTop:
+							problems = append(problems, fmt.Sprintf("field %s of %s is %s", f.Name(), typeShort(node.dyn), v))
+						case v.k == kNonNil && v.ptrOf != nil:
+							checkNode(v, where, depth+1)
+						}
+					case *types.Slice:
+						if v.k == kSlice {
+							for _, e := range v.elems {
+								if e.k == kNonNil && e.ptrOf != nil {
+									checkNode(e, where, depth+1)
+								} else if e.k == kNil {
+									problems = append(problems, fmt.Sprintf("an element of %s of %s is nil at %s", f.Name(), typeShort(node.dyn), where))
+								}
+							}
 						}
 					}
 				}
 			}
-			if len(res.rets) == 0 {
+			for _, ret := range vr.rets {
+				if !ret.isVR || ret.err.k != kNil {
+					continue
+				}
+				checkNode(ret.node, p.instrPos(ret.at), 0)
+			}
+			if len(vr.rets) == 0 {
 				problems = append(problems, "no executable return")
 			}
-			_ = nodeSeen
 			if len(problems) == 0 {
-				r.ok(key, desc+" → error result or a node with non-nil parts", p.pos(fn.Pos()), "SCCP with the operator token pinned (tokens taken from the grammar alternative)", true)
+				r.ok(key, desc+" → error result or a node with non-nil parts", p.pos(fn.Pos()), "SCCP with the operator token pinned (tokens taken from the grammar alternative); the node is read off the returned VisitResult", true)
 			} else {
 				r.bad(key, desc, p.pos(fn.Pos()), strings.Join(problems, "; "))
 			}
 		}
 	}
-	r.floor("hypotheses", 30)
+	r.floor("hypotheses", 20)
 	return r
+}
+
+// fieldNilTested: the Evaluate method of the node type compares the field with nil.
+func fieldNilTested(p *Program, pt *types.Pointer, field string) bool {
+	named, ok := pt.Elem().(*types.Named)
+	if !ok {
+		return false
+	}
+	ms := p.Prog.MethodSets.MethodSet(pt)
+	for i := 0; i < ms.Len(); i++ {
+		if ms.At(i).Obj().Name() != "Evaluate" {
+			continue
+		}
+		f := p.Prog.MethodValue(ms.At(i))
+		if f == nil {
+			return false
+		}
+		for _, b := range f.Blocks {
+			for _, ins := range b.Instrs {
+				bo, ok := ins.(*ssa.BinOp)
+				if !ok || (bo.Op != token.EQL && bo.Op != token.NEQ) {
+					continue
+				}
+				c, ok := bo.Y.(*ssa.Const)
+				if !ok || !c.IsNil() {
+					continue
+				}
+				if ld, ok := bo.X.(*ssa.UnOp); ok {
+					if fa, ok := ld.X.(*ssa.FieldAddr); ok && fieldName(fa) == field && len(f.Params) > 0 && fa.X == ssa.Value(f.Params[0]) {
+						return true
+					}
+				}
+			}
+		}
+	}
+	_ = named
+	return false
+}
+
+// mayNilNodeStores: "*expr.T.Field" -> position, for stores of a value that may
+// be the nil constant into an interface / func typed field of an expr node, in
+// fn and the functions of its package it calls.
+func mayNilNodeStores(p *Program, fn *ssa.Function) map[string]string {
+	out := map[string]string{}
+	seen := map[*ssa.Function]bool{}
+	var walk func(f *ssa.Function, depth int)
+	walk = func(f *ssa.Function, depth int) {
+		if seen[f] || depth > 5 {
+			return
+		}
+		seen[f] = true
+		for _, b := range f.Blocks {
+			for _, ins := range b.Instrs {
+				if c, ok := ins.(ssa.CallInstruction); ok {
+					if sc := c.Common().StaticCallee(); sc != nil && sc.Pkg == fn.Pkg && sc.Pkg != nil {
+						walk(sc, depth+1)
+					}
+				}
+				st, ok := ins.(*ssa.Store)
+				if !ok {
+					continue
+				}
+				fa, ok := st.Addr.(*ssa.FieldAddr)
+				if !ok || !strings.Contains(typeShort(fa.X.Type()), "expr.") {
+					continue
+				}
+				switch st.Val.Type().Underlying().(type) {
+				case *types.Interface, *types.Signature:
+					if mayBeNilConst(st.Val, 0) {
+						out[typeShort(fa.X.Type())+"."+fieldName(fa)] = p.instrPos(st)
+					}
+				}
+			}
+		}
+	}
+	walk(fn, 0)
+	return out
 }
 
 // ---------- PAN7 ----------
@@ -416,16 +496,17 @@ func rulePAN7(p *Program) *RuleResult {
 		names = append(names, n)
 	}
 	sort.Strings(names)
+	// every function of package parser (visitor methods, their helpers, closures)
 	allFns := []*ssa.Function{}
-	for _, n := range names {
-		f := vm[n]
-		if strings.HasSuffix(fnPkgPath(f), "/fhirpath/internal/parser") {
-			allFns = append(allFns, f)
-			for _, a := range f.AnonFuncs {
-				allFns = append(allFns, a)
+	if sp, err := p.Pkg("fhirpath/internal/parser"); err == nil {
+		for _, f := range p.RepoFuncs() {
+			if f.Pkg == sp && len(f.Blocks) > 0 {
+				allFns = append(allFns, f)
+				allFns = append(allFns, f.AnonFuncs...)
 			}
 		}
 	}
+	sort.SliceStable(allFns, func(i, j int) bool { return short(allFns[i]) < short(allFns[j]) })
 	// plus the API functions that assert the root result
 	for _, fq := range [][2]string{{"fhirpath", "Compile"}, {"fhirpath/patch", "Compile"}} {
 		if f, err := p.Func(fq[0], fq[1]); err == nil {
@@ -478,7 +559,7 @@ func rulePAN7(p *Program) *RuleResult {
 		}
 	}
 	r.floor("visitor_methods", 40)
-	r.floor("visit_result_assertions", 25)
+	r.floor("visit_result_assertions", 8)
 	return r
 }
 
